@@ -178,7 +178,8 @@ Lemma frame3_global_id n : frame3 (global_id n).
 Proof.
   unfold global_id. apply frame3_bind; [apply frame3_handle_from_bytes|]. intros h s.
   destruct (nm_find h (cs_ids s)); [|destruct (ht_entry_hangs (cs_ids s)); [exact I|]];
-    (destruct (nm_find _ (cs_names s)); [cbn; same3_tac|];
+    (destruct (nm_find _ (cs_names s));
+       [unfold name_checked; destruct (global_name_checked && _); cbn; [reflexivity | same3_tac]|];
      destruct (ht_entry_hangs (cs_names s)); cbn; [exact I | same3_tac]).
 Qed.
 Lemma frame3_resolve_function n : frame3 (resolve_function n).
